@@ -249,7 +249,13 @@ def gen_cell(cell, rng, rep):
     if kind in ('svc', 'und', 'smc', 'dabt', 'hyptrap') and (rng.random() < 0.25 or (kind == 'dabt' and (cell['mode'] == 'hyp' or cell.get('TGE')))):
         via = 'api'          # Registers.take_*_exception() called directly (the only way to reach e.g. a Data Abort taken to Hyp mode)
         words[-1] = (T.NOP << 16 | T.NOP) if thumb else A.NOP
-    if via == 'api' and kind in ('svc', 'smc') and thumb and it and pre == 0 and cell['mode'] in ('svc', 'irq', 'fiq', 'abt', 'und') and pc < 0xFFFFFF00 and rng.random() < 0.6:
+    if virt and thumb and (kind in ('irq', 'fiq') or via == 'api') and rng.random() < 0.25:
+        # the entry is taken from ThumbEE state (J = 1, T = 1; a configuration with the extension).  Nothing is EXECUTED in that state here: the fault
+        # arrives from the environment or through the API
+        cfg['have_thumbee'] = True
+        cpsr |= 1 << 24
+        state['cpsr'] = cpsr
+    if via == 'api' and kind in ('svc', 'smc') and thumb and it and pre == 0 and not (cpsr >> 24) & 1 and cell['mode'] in ('svc', 'irq', 'fiq', 'abt', 'und') and pc < 0xFFFFFF00 and rng.random() < 0.6:
         # the IT state the entry meets was not there from the start: it arrives with an exception RETURN (SUBS PC, LR, #0 restoring an SPSR whose IT bits are
         # live) executed in the step before the entry routine is called
         state['spsr'][cell['mode']] = cpsr
